@@ -59,12 +59,15 @@ def suffix (k : Kind) (txt : List Nat) : List Nat :=
   | .real => []
   | _ => txt.drop (txt.length - 1)
 
-/-- keyword `kw` occurs in `s ++ n` starting inside `s` and ending inside `n` -/
-def straddles (kw s n : List Nat) : Bool :=
-  (List.range s.length).any fun i => decide (s.length < i + kw.length) && kw.isPrefixOf ((s ++ n).drop i)
+/-- reserved word `kw` splits as `x ++ y` with `x` = the last `j` characters of `s` and `y` a
+non-empty prefix of `n`: written without a blank, `s` followed by `n` contains `kw` across the
+boundary (the ROM tokenizer ignores blanks and matches reserved words anywhere) -/
+def splitHides (kw s n : List Nat) (j : Nat) : Bool :=
+  decide (j < kw.length) && (kw.drop j).isPrefixOf n && (s.drop (s.length - j) == kw.take j)
 
-/-- some reserved word straddles the boundary between `s` and `n` -/
-def hidden (s n : List Nat) : Bool := Tok.all.any fun t => straddles t.spelling s n
+/-- some reserved word straddles the boundary between the two-character name `s` and `n` -/
+def hidden (s n : List Nat) : Bool :=
+  Tok.all.any fun t => [1, 2].any fun j => splitHides t.spelling s n j
 
 /-- some reserved word occurs inside `s` -/
 def containsKeyword (s : List Nat) : Bool :=
